@@ -82,6 +82,7 @@ func EntropyOfSize(size int) *rapid.Generator[Ent] {
 		shape := rapid.SampledFrom([]string{
 			"uniform", "uniform", "lead-zero-bytes", "lead-zero-bytes", "lead-zero-bits", "lead-one-bits",
 			"trail-zero-bits", "trail-one-bits", "all-zero", "all-one", "single-bit", "indices", "hash-byte", "sparse",
+			"text-like", "repeated-byte",
 		}).Draw(t, "shape")
 		e := make([]byte, size)
 		uniform := func() {
@@ -119,6 +120,19 @@ func EntropyOfSize(size int) *rapid.Generator[Ent] {
 			}
 		case "single-bit":
 			setBit(e, rapid.IntRange(0, bitsN-1).Draw(t, "bit"), true)
+		case "text-like":
+			// every byte from one textual alphabet: entropy that "looks like" hex, digits, base64 or
+			// printable text (what input-sniffing conveniences key on)
+			alpha := rapid.SampledFrom([]string{"0123456789abcdef", "0123456789ABCDEF", "0123456789abcdefABCDEF", "0123456789",
+				"ABCDEFGHIJKLMNOPQRSTUVWXYZabcdefghijklmnopqrstuvwxyz0123456789+/", "abcdefghijklmnopqrstuvwxyz ", " !\"#$%&'()*+,-./0123456789:;<=>?@ABCDEFGHIJKLMNOPQRSTUVWXYZ[\\]^_`abcdefghijklmnopqrstuvwxyz{|}~"}).Draw(t, "alphabet")
+			for i := range e {
+				e[i] = alpha[rapid.IntRange(0, len(alpha)-1).Draw(t, "ch")]
+			}
+		case "repeated-byte":
+			b := rapid.Byte().Draw(t, "b")
+			for i := range e {
+				e[i] = b
+			}
 		case "sparse":
 			for i := range e {
 				e[i] = rapid.SampledFrom([]byte{0, 0, 0, 0xff, 0x80, 0x01, 0x7f}).Draw(t, "b")
